@@ -354,7 +354,7 @@ func c01Run(r *runCtx, id string, f []string) {
 // programs that exercise block structure: else, otherwise, nesting, decorators, stop, del
 // lines for the block-structure programs in addition to the standard ones: floats whose %g form
 // has an exponent, used as label values and deleted again
-var c01ExtraLines = []string{"2500000.5 add", "2500000.5 del", "0.00005 add", "0.00005 del", "1234567.0 1234567.0", "1e6 x", "12.5 add", "12.5 del"}
+var c01ExtraLines = []string{"2500000.5 add", "2500000.5 del", "0.00005 add", "0.00005 del", "1234567.0 1234567.0", "1e6 x", "12.5 add", "12.5 del", " add", " del"}
 
 var c01Programs = []string{
 	"counter seen by v\n/^(\\d+\\.\\d+) (\\w+)/ {\n  seen[$1]++\n  $2 == \"del\" {\n    del seen[$1]\n  }\n}\n",
@@ -393,6 +393,8 @@ var c01Programs = []string{
 	"gauge g\n/^(\\d+\\.\\d+) (\\d+\\.\\d+)/ {\n  $1 < $2 {\n    g = 1\n  }\n  $1 == $2 {\n    g = 2\n  }\n  $1 > $2 || $1 != $2 {\n    g += 4\n  }\n}\n",
 	"gauge g\n/^(\\w+) (\\w+)/ {\n  $1 < $2 {\n    g = 1\n  }\n  $1 == $2 {\n    g = 2\n  }\n  $1 > \"m\" {\n    g += 4\n  }\n}\n",
 	"counter a\ncounter b\n/^(\\d+)/ {\n  /^1/ {\n    a++\n  } else {\n    /^2/ {\n      b++\n    } else {\n      /^3/ {\n        a += 3\n      } else {\n        b += 4\n      }\n    }\n  }\n}\n",
+	// a length as a truth value under && and || (zero is false, like every other integer)
+	"counter c\ncounter d\n/^(\\S*) add/ && len($1) && 1 {\n  c++\n}\n/^(\\S*) del/ && (len($1) || 0) {\n  d++\n}\n",
 }
 
 func init() {
